@@ -74,6 +74,18 @@ CHECKS = {
    text="Panic is not an action of any model: every harness call runs under catch_unwind with overflow checks and debug assertions on, and any panic observed in the hostile enumerations of all engines (hostile constructor scenarios: capacities 0/1, empty/long terminators, unusable addresses and paths, tiny queues; client calls with empty/long/non-ASCII/delimiter strings, NaN/inf/-0.0, u64::MAX, i64::MIN, maximal Durations, empty and 100 000-element lists; writer and queue stress) is flagged C20 by the TLC monitors, as is an invalid value that is not reported as an error or a valid one that is not sent. The arithmetic guards (written <= capacity so capacity - written cannot underflow; queued() never wraps) are invariants checked by TLC on Writer.tla / Queue.tla.",
    note="'for all inputs' is not decided: exploration over the hostile classes the specifications name plus seeded random instantiation",
    tech="spec-driven hostile enumeration under catch_unwind judged by the TLC monitors; arithmetic guards as TLC invariants"),
+ "C12": dict(engine="sock", cat=MC, ref="DESIGN.md 6/C12",
+   text="BufSink.tla (threads x one mutex x the writer, the WriterProp monitor fed in lock order) is explored exhaustively by TLC for 2-3 threads: mutual exclusion, framing/conservation in every interleaving, per-thread order of buffered metrics; the mutants 'try_lock and skip under contention' and 'lock released between flush and buffering' are refuted. On the real code 2-4 free-running threads emit and flush through ONE shared StatsdClient over the buffered spy / UDP / Unix sinks (real loopback sockets); the lock hooks inside the guards and the write-attempt hook give the true order of the critical sections, the trace is serialised in that order and validated by TLC against WriterProp plus the rule that critical sections never overlap.",
+   note="which contender wins the mutex next is the OS's choice: traces are validated, not replayed; loopback sockets deliver in order without loss at these volumes",
+   tech="TLC model checking of all interleavings; trace validation of free-running threads serialised by lock hooks"),
+ "C13": dict(engine="sock", cat=MC, ref="DESIGN.md 6/C13",
+   text="An unbuffered sink is the writer with capacity 0 and an empty terminator (every metric alone, unmodified, returns its length), so WriterProp + Sock.tla (one datagram per accepted emit, TLC over concurrent emitters) are the model; binding is on REAL loopback sockets: UDP and Unix-datagram receivers plus a decoy that must stay empty, blocking and non-blocking, metrics of 0..65 507 bytes with multi-byte UTF-8, real failures (EMSGSIZE above 65 507 bytes, EAGAIN on a full Unix queue); buffered UDP/Unix sinks with capacities 0..70 000 and the default 512 are validated as C05 with terminator newline, including flush, drop and flush through client -> queuing wrapper. Every received datagram is compared byte for byte in TLC.",
+   note="the weight is on trace validation of real sockets; the models are small",
+   tech="trace validation of real loopback sockets against WriterProp/Sock.tla in TLC"),
+ "C14": dict(engine="sock", cat=MC, ref="DESIGN.md 6/C14",
+   text="Sock.tla models the two counter increments of every attempt as separate atomic steps with N concurrent emitters: TLC shows the four counters exact at every quiescent moment in every interleaving (a non-atomic increment and a misclassified drop are refuted). On the real sockets stats() is read after every call of the sequential runs and after join in the concurrent ones and compared in TLC with the monitor's own count of accepted / refused datagrams and bytes (refused sizes come from the write-attempt hook), with real refusals, and through a wrapping QueuingMetricSink.",
+   note="mid-flight samples may lag (allowed by the statement); only quiescent reads are judged",
+   tech="TLC model checking of the counter protocol; trace validation of stats() on real sockets"),
 }
 
 def main():
@@ -97,6 +109,7 @@ def main():
     for pid, c in CHECKS.items():
         engines.setdefault(c["engine"], []).append(pid)
     ENG_DESC = {
+      "sock": ("spec/BufSink.tla + Sock.tla + WriterProp.tla + WriterTrace.tla; tools/eng_sock.py; harness/src/sink.rs", "TLA+ models of the shared sink and of the counter protocol; real loopback sockets; trace validation"),
       "client": ("spec/LineGrammar.tla + Line.tla + Client.tla + ClientProp.tla + ClientTrace.tla + Values.tla; tools/eng_client.py; harness/src/client.rs", "TLA+ grammar + call-protocol model x monitor; shape replay; per-process macro replay; trace validation"),
       "c20": ("tools/eng_c20.py (uses the writer, queue and client monitors)", "spec-driven hostile enumeration under catch_unwind"),
       "holder": ("spec/Holder.tla + spec/HolderProp.tla + spec/HolderTrace.tla; tools/eng_holder.py; harness/src/holder.rs", "TLA+ weak-memory model x happens-before monitor; orderings extracted from the running code; scheduled replay; trace validation"),
@@ -110,7 +123,7 @@ def main():
         "guard": "cadence_verif",
         "enable": "RUSTFLAGS --cfg cadence_verif, set in /verif/harness/.cargo/config.toml (the harness path-depends on /repo/cadence and /repo/cadence-macros)",
         "baseline_off_cmd": "cd /repo && cargo test --workspace --no-fail-fast --offline",
-        "source_commits": ["9cd289e", "09d2281", "c133012", "04e7587"],
+        "source_commits": ["9cd289e", "09d2281", "c133012", "04e7587", "ad2a254"],
         "add_only": True,
       },
       "engines": [{"name": k, "path": ENG_DESC.get(k, ("", ""))[0], "serves_properties": sorted(v), "kind_free_text": ENG_DESC.get(k, ("", ""))[1]} for k, v in engines.items()],
